@@ -273,6 +273,25 @@ def date_bin_laws(ctx):
             refs = [ref, ref, ref, lambda r: True, lambda r: True]
             run_law(ctx, f'date_bin', [('x', T_DATE), ('o', T_DATE)], rows, exprs, refs)
             ctx.count('obs.date_bin_boundary_dates', len(boundary))
+    # origins on day 29-31 with month/year strides: which grid is "the" aligned one is not fixed by the statement (end-of-month
+    # clipping), so only the grid-independent laws are demanded: the bin contains the date, bin starts are fixed points,
+    # and the bin start is monotone in the date
+    for kind, n in [s_ for s_ in STRIDES if s_[0] != 'day']:
+        stride_text = f'{n} {kind}' + ('s' if n > 1 else '')
+        rd = relativedelta(months=n) if kind == 'month' else relativedelta(years=n)
+        for origin in (date(2024, 1, 31), date(2019, 12, 30), date(2020, 2, 29), date(2001, 3, 29), date(2024, 5, 31)):
+            ds = sorted(set(rng.sample(sample, min(len(sample), ctx.pick(25, 150))) + [origin + relativedelta(months=k) for k in range(-8, 9)]))
+            rows = [(d, origin) for d in ds]
+            exprs = [f'date_bin("{stride_text}", x, o) <= x', f'x < date_bin("{stride_text}", x, o) + interval("{stride_text}")',
+                     f'date_bin("{stride_text}", date_bin("{stride_text}", x, o), o) = date_bin("{stride_text}", x, o)']
+            run_law(ctx, 'date_bin_end_of_month_origin', [('x', T_DATE), ('o', T_DATE)], rows, exprs, [lambda r: True] * 3)
+            mt2 = model.ModelTable('law', [('k', T_INT), ('x', T_DATE), ('o', T_DATE)], [(i, d, origin) for i, d in enumerate(ds)])
+            res = safe_rows(ctx, engine.connection([mt2]), f'SELECT date_bin("{stride_text}", x, o) AS b FROM #law', 'date_bin_end_of_month_origin')
+            if res is not None:
+                for (a,), (b,) in zip(res, res[1:]):
+                    if a is not None and b is not None and b < a:
+                        ctx.violation('c18.date_bin_end_of_month_origin', f'date_bin("{stride_text}", ., {origin}) decreases between increasing dates: {a} then {b}', {'origin': str(origin)})
+                        break
     # undefined inputs: executed, counted, not judged
     mt = model.ModelTable('law', [('k', T_INT), ('x', T_DATE)], [(0, date(2020, 1, 15))])
     conn = engine.connection([mt])
@@ -538,7 +557,7 @@ def finalize(merged):
     c = merged['counters']
     reasons = []
     want = {'date_trunc', 'date_parts', 'date_arithmetic', 'interval_arithmetic', 'date_bin', 'account_decomposition', 'string_slicing', 'splitcomp',
-            'maxwidth', 'regex_functions', 'grepn', 'set_functions', 'numeric_functions', 'casts_object', 'casts_str', 'casts_decimal', 'casts_int_bool',
+            'maxwidth', 'date_bin_end_of_month_origin', 'regex_functions', 'grepn', 'set_functions', 'numeric_functions', 'casts_object', 'casts_str', 'casts_decimal', 'casts_int_bool',
             'date_from_ymd'}
     laws = set(merged['sets'].get('laws', ()))
     if want - laws:
